@@ -68,7 +68,7 @@ def load_known() -> List[Dict[str, Any]]:
         return json.load(f)["findings"]
 
 
-def finish(chk: Check, digest: str, stats: Dict[str, int], seed: int = 0) -> int:
+def finish(chk: Check, digest: str, stats: Dict[str, int], seed: int = 0, write: bool = True) -> int:
     """Print the report, write evidence, return the exit code."""
     known = [k for k in load_known() if k["property"] == chk.prop]
     known_keys = {(k["rule"], k["construct_key"]): k for k in known if k.get("status") == "known"}
@@ -108,11 +108,12 @@ def finish(chk: Check, digest: str, stats: Dict[str, int], seed: int = 0) -> int
             print(f"ANALYSIS-ERROR property={chk.prop} {e}")
         code = 2
     if new and code == 0:
-        os.makedirs(out_dir, exist_ok=True)
+        if write:
+            os.makedirs(out_dir, exist_ok=True)
         for o in new:
             h = hashlib.sha256(f"{o.rule}|{o.key}".encode()).hexdigest()[:10]
             path = os.path.join(out_dir, f"{chk.prop}-{h}.json")
-            with open(path, "w") as f:
+            with open(path, "w") if write else open(os.devnull, "w") as f:
                 json.dump(
                     {
                         "property": chk.prop,
@@ -133,7 +134,8 @@ def finish(chk: Check, digest: str, stats: Dict[str, int], seed: int = 0) -> int
             print(f"VIOLATION property={chk.prop} replay={path}")
         code = 1
 
-    write_evidence(chk, digest, stats, seed, len(new), matched, code)
+    if write:
+        write_evidence(chk, digest, stats, seed, len(new), matched, code)
     if code == 0:
         print(
             f"[{chk.prop}] OK: {len(chk.obligations)} obligations, {len(chk.obligations) - len(failed)} discharged, "
